@@ -77,6 +77,7 @@ class ServerCore:
         self.lock = threading.Lock()
         self.closed = False
         self.n_handled = 0
+        self.stop_reading = threading.Event()     # a peer that stays connected but no longer reads
 
     # ---- transport primitives (overridden) ----
     def _send(self, b):
@@ -147,6 +148,9 @@ class ServerCore:
             if self.send_hello:
                 self.send_bytes((self.hello_text if self.hello_text is not None else hello_xml(self.caps, self.sid)).encode('utf-8') + DELIM10)
             while not self.closed:
+                if self.stop_reading.is_set():
+                    time.sleep(0.02)
+                    continue
                 try:
                     d = self._recv()
                 except Exception:
